@@ -7,12 +7,11 @@ from pyvc import native
 def run(rep, tier, seed):
     # P: the rewind / tag-stack discipline of list matching ("no state carried from one attempt into the next")
     verify_all(rep, k_match.specs('C17'))
-    rep.assumptions.append('callees of _match__inside_list (_match__inside_list_quantifier, per-class match functions) '
-                           'under assumed contracts: return None or a mapping, may move both cursors inside their '
-                           'sequences, leave the tag stack depth as found')
+    rep.assumptions.append('per-class match functions under an assumed contract: return None or a mapping, leave the tag '
+                           'stack depth as found; _match__inside_list and _match__inside_list_quantifier are verified '
+                           'against each other\'s contract')
     sec = native.run('b_match', 'main', {'tier': tier, 'seed': seed}, timeout=7200)
     sec['native_entry'] = ('b_match', 'replay')
     rep.bounded(sec)
     rep.remainder = ('quantifier semantics (regular-expression equivalence) and layout independence: decided by the bounded '
-                     'enumeration only, which is the property\'s own bound; _match__inside_list_quantifier and the leaf-type '
-                     'pre-filter are not under contract')
+                     'enumeration only, which is the property\'s own bound; the leaf-type pre-filter is not under contract')
